@@ -268,12 +268,15 @@ theorem C02_xyzz_conversions {l X Y ZZ ZZZ x y : F} (h : XyzzRep l X Y ZZ ZZZ x 
 
 example : XyzzRep (F := ℚ) 3 18 81 9 27 2 3 := ⟨by norm_num, by norm_num, by norm_num, by norm_num, by norm_num⟩
 
-/-- FINDING (stark-curve, unexported, unused outside tests): `g1JacExtended.doubleMixed` computes the tangent of the
-curve with a = (receiver's stale ZZ)², not of the stark curve (a = 1). -/
-theorem C02_starkDoubleMixed_wrong_a {pZZ x y : F} (hc : (2 : F) ≠ 0) (hy : y ≠ 0) :
-    XyzzRep (2 * y) (xyzzDoubleMixedStark pZZ x y).1 (xyzzDoubleMixedStark pZZ x y).2.1
-      (xyzzDoubleMixedStark pZZ x y).2.2.1 (xyzzDoubleMixedStark pZZ x y).2.2.2
-      (tangent (pZZ ^ 2) x y).1 (tangent (pZZ ^ 2) x y).2 := xyzzDoubleMixedStark_tangent hc hy
+/-- stark-curve `g1JacExtended.doubleMixed` (a = aCurveCoeff; repaired by the `fix:` commit 09230d9, before which the
+square of the receiver's stale ZZ was used for a): the group doubling of the affine operand -/
+theorem C02_starkDoubleMixed_group_law [DecidableEq F] {a b x y : F} (hc : (2 : F) ≠ 0) (h1 : (sw a b).Nonsingular x y) (hy : y ≠ 0) :
+    ∃ x3 y3 l3, ∃ h3 : (sw a b).Nonsingular x3 y3,
+      Affine.Point.some x y h1 + Affine.Point.some x y h1 = Affine.Point.some x3 y3 h3 ∧
+      XyzzRep l3 (xyzzDoubleMixedStark a x y).1 (xyzzDoubleMixedStark a x y).2.1
+        (xyzzDoubleMixedStark a x y).2.2.1 (xyzzDoubleMixedStark a x y).2.2.2 x3 y3 := by
+  obtain ⟨h3, hadd⟩ := C02_tangent_is_group_double hc h1 hy
+  exact ⟨_, _, _, h3, hadd, xyzzDoubleMixedStark_tangent hc hy⟩
 
 /-! ### twisted Edwards -/
 
